@@ -124,9 +124,10 @@ from .fold import Abstract as _Abstract  # noqa: E402
 class NeedDecision(Exception):
     """an abstract truth value was needed that the current decision prefix does not cover"""
 
-    def __init__(self, expr: Any):
+    def __init__(self, expr: Any, arity: int = 2):
         super().__init__(str(expr))
         self.expr = expr
+        self.arity = arity
 
 
 class Oracle:
@@ -139,12 +140,12 @@ class Oracle:
         self.pos = 0
         self.log: List[Tuple[Any, bool]] = []
 
-    def decide(self, expr: Any) -> bool:
+    def decide(self, expr: Any, arity: int = 2) -> Any:
         for e, v in self.log:
             if e == expr:
                 return v
         if self.pos >= len(self.decisions):
-            raise NeedDecision(expr)
+            raise NeedDecision(expr, arity)
         v = self.decisions[self.pos]
         self.pos += 1
         self.log.append((expr, v))
@@ -173,9 +174,13 @@ def explore(run: Callable[[], Any], max_runs: int = 64) -> List[Tuple[List[Tuple
             Oracle.current = o
             try:
                 res = run()
-            except NeedDecision:
-                work.append(dec + [False])
-                work.append(dec + [True])
+            except NeedDecision as nd:
+                if nd.arity == 2:
+                    work.append(dec + [False])
+                    work.append(dec + [True])
+                else:
+                    for i in reversed(range(nd.arity)):
+                        work.append(dec + [i])
                 continue
             out.append((list(o.log), res))
     finally:
@@ -264,6 +269,12 @@ class AbsInt(_Abstract):
         return self._cmp(">=", o)
 
     __hash__ = None  # type: ignore
+
+    def choose_index(self, n: int) -> int:
+        """this integer used as an index into a sequence of n elements: one run per element"""
+        if Oracle.current is None:
+            raise NeedDecision(("index", self.expr), n)
+        return Oracle.current.decide(("index", self.expr), n)
 
     def __repr__(self) -> str:
         return "AbsInt%r" % (self.expr,)
